@@ -56,6 +56,44 @@ class PySet(Ext):
     def py_getattr(self, I, name):
         if name == "add":
             return Builtin("set.add", lambda I_, a, k: self.add(a[0]))
+        if name in ("discard", "remove"):
+            def drop(I_, a, k):
+                x = hashable(a[0])
+                hit = [y for y in self.items if _concrete_eq(x, y)]
+                if not hit and name == "remove":
+                    raise PyExc("KeyError", (a[0],))
+                self.items[:] = [y for y in self.items if not _concrete_eq(x, y)]
+            return Builtin(f"set.{name}", drop)
+        if name == "update":
+            def update(I_, a, k):
+                for it in a:
+                    for x in iterate(I_, it):
+                        self.add(x)
+            return Builtin("set.update", update)
+        if name in ("union", "intersection", "difference", "symmetric_difference"):
+            sym = {"union": "|", "intersection": "&", "difference": "-", "symmetric_difference": "^"}[name]
+
+            def setop(I_, a, k):
+                r = self
+                for it in a:
+                    r = r.py_binop(I_, sym, it if isinstance(it, PySet) else PySet(iterate(I_, it)), False)
+                return PySet(r.items)
+            return Builtin(f"set.{name}", setop)
+        if name in ("issubset", "issuperset", "isdisjoint"):
+            def rel(I_, a, k):
+                o = a[0] if isinstance(a[0], PySet) else PySet(iterate(I_, a[0]))
+                if name == "issubset":
+                    return self._subset(o)
+                if name == "issuperset":
+                    return o._subset(self)
+                return not any(_concrete_eq(x, y) for x in self.items for y in o.items)
+            return Builtin(f"set.{name}", rel)
+        if name == "copy":
+            return Builtin("set.copy", lambda I_, a, k: PySet(self.items))
+        if name == "clear":
+            return Builtin("set.clear", lambda I_, a, k: self.items.clear())
+        if hasattr(set, name):
+            raise Unsupported(f"set.{name}")          # the real type has it, the model does not
         raise PyExc("AttributeError", (name,))
 
     def py_isinstance(self, I, cls):
@@ -386,6 +424,9 @@ def matmul(I, a, b):
 
 
 def binop(I, op, a, b, inplace=False):
+    if inplace and isinstance(a, PySet) and isinstance(b, PySet) and op in ("|", "&", "-", "^"):
+        a.items[:] = a.py_binop(I, op, b, False).items          # set.__ior__ & co. update the SAME set
+        return a
     # user-defined / modelled operands first
     if isinstance(a, Ext) and not isinstance(a, BuiltinType) or isinstance(a, BuiltinType):
         r = a.py_binop(I, op, b, False)
@@ -428,6 +469,17 @@ def binop(I, op, a, b, inplace=False):
         if isinstance(b, list) and isinstance(a, Tensor):
             return _tensor_binop(I, op, a, Tensor.fromlist(b))
         raise Unsupported("tensor operator with non numeric operand")
+    if inplace and isinstance(a, list) and op == "+":
+        if isinstance(b, (list, tuple)):
+            a.extend(b)                       # list.__iadd__ extends the SAME list (every alias sees it)
+            return a
+        raise Unsupported("list += non-sequence")
+    if inplace and isinstance(a, list) and op == "*" and isinstance(b, int) and not isinstance(b, bool):
+        a[:] = a * b
+        return a
+    if inplace and isinstance(a, dict) and op == "|" and isinstance(b, dict):
+        a.update(b)
+        return a
     if op == "+":
         if isinstance(a, list) and isinstance(b, list):
             return a + b
@@ -519,7 +571,10 @@ def _eq(I, a, b):
             if isinstance(x, Obj):
                 f = x.cls.lookup("__eq__")
                 if f is not None:
-                    return I.call(I.bind(f[1], x, x.cls), [y], {})
+                    bound = f[1].bind_to(x) if isinstance(f[1], Ext) and hasattr(f[1], "bind_to") else I.bind(f[1], x, x.cls)
+                    r = I.call(bound, [y], {})
+                    if r is not NOT_IMPLEMENTED:
+                        return r
         return a is b
     if isinstance(a, (list, tuple)) and isinstance(b, (list, tuple)):
         if type(a) is not type(b) or len(a) != len(b):
@@ -878,8 +933,16 @@ def getitem(I, o, k):
                 for i in range(n - 2, -1, -1):
                     rz = z3.If(z3.Or(kz == i, kz == i - n), to_z3(o[i], w), rz)
                 return mk(rz)
-            raise Unsupported("symbolic index into a list of non-scalars")
-        if isinstance(k, bool) or not isinstance(k, int):
+            # elements that are not scalars (functions, objects, arrays): split the path on the value of the index
+            if n and n <= 8:
+                for i in range(n - 1):
+                    if I.path.branch(z3.Or(kz == i, kz == i - n)):
+                        return o[i]
+                return o[n - 1]
+            raise Unsupported("symbolic index into a long list of non-scalars")
+        if isinstance(k, bool):
+            k = int(k)              # python: bool is an int (seq[True] is seq[1])
+        if not isinstance(k, int):
             raise PyExc("TypeError", ("list indices must be integers",))
         try:
             return o[k]
@@ -917,6 +980,12 @@ def setitem(I, o, k, v):
                 o[k] = v
             except IndexError:
                 raise PyExc("IndexError", ("list assignment index out of range",))
+            return
+        if isinstance(k, slice) and all(x is None or isinstance(x, int) for x in (k.start, k.stop, k.step)):
+            try:
+                o[k] = list(iterate(I, v))
+            except ValueError as e:
+                raise PyExc("ValueError", tuple(e.args)) from None
             return
         raise Unsupported("list setitem with non-int index")
     if isinstance(o, dict):
@@ -998,6 +1067,20 @@ def builtin_getattr(I, o, name):
             return Builtin("list.copy", lambda I_, a, k: list(l))
         if name == "pop":
             return Builtin("list.pop", lambda I_, a, k: l.pop(*a))
+        if name == "reverse":
+            return Builtin("list.reverse", lambda I_, a, k: l.reverse())
+        if name == "sort":
+            def sort(I_, a, k):
+                l[:] = sort_values(I_, list(l), k)
+            return Builtin("list.sort", sort)
+        if name == "remove":
+            def remove(I_, a, k):
+                for i, x in enumerate(l):
+                    if truth(I_, _eq(I_, x, a[0])):
+                        del l[i]
+                        return None
+                raise PyExc("ValueError", ("list.remove(x): x not in list",))
+            return Builtin("list.remove", remove)
         if name == "insert":
             return Builtin("list.insert", lambda I_, a, k: l.insert(a[0], a[1]))
         if name == "index":
@@ -1048,8 +1131,18 @@ def builtin_getattr(I, o, name):
                     raise Unsupported("endswith on opaque string")
                 return r
             return Builtin("str.endswith", ew)
-        if isinstance(s, str) and name in ("startswith", "lower", "upper", "strip", "split", "replace", "rstrip", "lstrip"):
-            return Builtin("str." + name, lambda I_, a, k: getattr(s, name)(*a, **k))
+        if isinstance(s, str) and hasattr(str, name) and not name.startswith("_") and name not in ("encode", "format_map", "maketrans", "translate"):
+            def concrete(x):
+                return x is None or isinstance(x, (str, int)) or isinstance(x, tuple) and all(isinstance(y, str) for y in x)
+
+            def strmeth(I_, a, k):
+                if not all(concrete(x) for x in a) or not all(concrete(x) for x in k.values()):
+                    raise Unsupported(f"str.{name} with a non-concrete argument")
+                try:
+                    return getattr(s, name)(*a, **k)
+                except (ValueError, TypeError, IndexError) as e:
+                    raise PyExc(type(e).__name__, tuple(e.args)) from None
+            return Builtin("str." + name, strmeth)
     if isinstance(o, Tensor):
         from .models import numpy_model
         return numpy_model.tensor_getattr(I, o, name)
@@ -1060,7 +1153,33 @@ def builtin_getattr(I, o, name):
         return o.py_getattr(I, name)
     if name == "__class__":
         return type_of(I, o)
+    real = float if isinstance(o, Fraction) else type(o)
+    if real in (list, dict, str, tuple, int, float, bool, set, frozenset, bytes, type(None), slice) and hasattr(real, name):
+        # the real Python type HAS this attribute; the interpreter just does not implement it
+        raise Unsupported(f"{real.__name__}.{name} is not modelled")
     raise PyExc("AttributeError", (f"'{type(o).__name__}' value has no attribute '{name}'",))
+
+
+def sort_values(I, items, k):
+    """sorted(items, key=..., reverse=...) for concrete keys (stable, like CPython)"""
+    extra = set(k) - {"key", "reverse"}
+    if extra:
+        raise PyExc("TypeError", (f"'{sorted(extra)[0]}' is an invalid keyword argument for sort()",))
+    keyf = k.get("key")
+    keys = [I.call(keyf, [x], {}) for x in items] if keyf is not None else list(items)
+
+    def concrete(x):
+        return isinstance(x, (int, Fraction, str)) or isinstance(x, tuple) and all(concrete(y) for y in x)
+    if not all(concrete(x) for x in keys):
+        raise Unsupported("sorted() of symbolic or non-scalar values")
+    rev = k.get("reverse", False)
+    if not isinstance(rev, (bool, int)):
+        raise Unsupported("sorted(reverse=<symbolic>)")
+    try:
+        order = sorted(range(len(items)), key=lambda i: keys[i], reverse=bool(rev))
+    except TypeError as e:
+        raise PyExc("TypeError", tuple(e.args)) from None
+    return [items[i] for i in order]
 
 
 def type_of(I, v):
@@ -1161,7 +1280,13 @@ def isinstance_(I, v, cls):
             return True
         if n in BUILTIN_EXC_BASES:
             return isinstance(v, ExcObj) and __import__("pyvc.values", fromlist=["exc_is_a"]).exc_is_a(v.cls_name, n)
-        return False
+        if n == "NoneType":
+            return v is None
+        if n == "function":
+            return isinstance(v, FuncVal)
+        if n == "set":
+            return False                    # sets are PySet (handled above)
+        raise Unsupported(f"isinstance against the builtin type {n}")
     if isinstance(cls, ExtClass):
         if isinstance(v, Obj):
             return cls in v.cls.mro
@@ -1266,8 +1391,26 @@ def make_builtins(I):
     def minmax(is_min):
         def f(I, a, k):
             items = list(iterate(I, a[0])) if len(a) == 1 else list(a)
+            extra = set(k) - {"key", "default"}
+            if extra:
+                raise PyExc("TypeError", (f"min()/max() got an unexpected keyword argument '{sorted(extra)[0]}'",))
             if not items:
+                if "default" in k and len(a) == 1:
+                    return k["default"]
                 raise PyExc("ValueError", ("min()/max() arg is an empty sequence",))
+            keyf = k.get("key")
+            if keyf is not None:
+                keys = [I.call(keyf, [x], {}) for x in items]
+                best = 0
+                for j in range(1, len(items)):
+                    c = _order(I, "Lt", keys[j], keys[best]) if is_min else _order(I, "Gt", keys[j], keys[best])
+                    if not isinstance(c, bool):
+                        if not isinstance(c, Sym):
+                            raise Unsupported("min()/max() with a key that does not order to a truth value")
+                        c = I.path.branch(to_z3(c, "bool"))
+                    if c:
+                        best = j
+                return items[best]
             cur = items[0]
             for x in items[1:]:
                 c = _order(I, "Lt", x, cur) if is_min else _order(I, "Gt", x, cur)
@@ -1281,6 +1424,10 @@ def make_builtins(I):
 
     B["min"] = Builtin("min", minmax(True))
     B["max"] = Builtin("max", minmax(False))
+
+    @reg("divmod")
+    def _divmod(I, a, k):
+        return (binop(I, "//", a[0], a[1]), binop(I, "%", a[0], a[1]))
 
     @reg("abs")
     def _abs(I, a, k):
@@ -1309,7 +1456,10 @@ def make_builtins(I):
                 return mk(to_z3(v, "int"))
             raise Unsupported("int() of a symbolic real")
         if isinstance(v, str):
-            return int(v)
+            try:
+                return int(v, *[x for x in a[1:2] if isinstance(x, int)])
+            except ValueError as e:
+                raise PyExc("ValueError", tuple(e.args)) from None
         raise Unsupported(f"int() of {type(v).__name__}")
 
     def ctor_float(I, a, k):
@@ -1436,6 +1586,16 @@ def make_builtins(I):
             return a[1]
         raise PyExc("StopIteration", ())
 
+    @reg("map")
+    def _map(I, a, k):
+        f, its = a[0], [iterate(I, x) for x in a[1:]]
+        return IterVal((I.call(f, list(vals), {}) for vals in zip(*its)))
+
+    @reg("filter")
+    def _filter(I, a, k):
+        f, it = a[0], iterate(I, a[1])
+        return IterVal((x for x in it if truth(I, x if f is None else I.call(f, [x], {}))))
+
     B["super"] = Builtin("super", lambda I, a, k: SuperVal(a[0], a[1]))
     B["property"] = Builtin("property", lambda I, a, k: PropertyVal(*a))
     B["staticmethod"] = Builtin("staticmethod", lambda I, a, k: StaticMethodVal(a[0]))
@@ -1443,10 +1603,7 @@ def make_builtins(I):
 
     @reg("sorted")
     def _sorted(I, a, k):
-        items = list(iterate(I, a[0]))
-        if any(isinstance(x, Sym) for x in items):
-            raise Unsupported("sorted() of symbolic values")
-        return sorted(items, reverse=bool(k.get("reverse", False)))
+        return sort_values(I, list(iterate(I, a[0])), k)
 
     @reg("reversed")
     def _reversed(I, a, k):
@@ -1471,6 +1628,14 @@ def make_builtins(I):
 
     @reg("round")
     def _round(I, a, k):
+        v = a[0]
+        nd = a[1] if len(a) > 1 else k.get("ndigits")
+        if isinstance(v, (int, Fraction)) and not isinstance(v, bool) and (nd is None or isinstance(nd, int)):
+            if isinstance(v, int):
+                return round(v, nd) if nd is not None else v
+            if nd is None:
+                return round(v)                   # Fraction.__round__: half to even, like float on exactly representable halves
+            raise Unsupported("round() to digits of a non-integer")      # depends on the binary representation of the float
         raise Unsupported("round()")
 
     B["NotImplemented"] = NOT_IMPLEMENTED
